@@ -790,6 +790,13 @@ def run_C06(ctx):
                                       % (gname, vn, payload, firstbad, ir['fetched'], raw), case_of(out, gname, variant=vn, input=payload, observed=raw, expected='error after %d requests' % (firstbad + 1)), interface='I6')
                     elif ctx.evaluations % 2999 == 1:
                         ctx.sample(dict(grammar=gname, variant=vn, input=payload, first_bad_token=firstbad, result=raw))
+    # "never by returning a result as if the input had been accepted": every accepted run is re-executed by the verified
+    # checker; a result returned for an input that its own reductions do not derive is exactly that
+    for gname, vn, payload, ir, verdict in replay_oracle(out):
+        ctx.evaluations += 1
+        if not verdict.startswith('ok'):
+            ctx.violation('counterexample', 'variant %s of grammar %s returns a result for %r as if it had been accepted, but the reductions it performed (%s) do not derive that input (verified replay: %s)'
+                          % (vn, gname, payload, ir['reds'], verdict), case_of(out, gname, variant=vn, input=payload, observed=ir['raw'], expected='Grammar error'), interface='I6')
     loops = sum(1 for (_, vn, _, _, raw, _) in parsed_runs(out) if 'STEPLIMIT' in raw)
     ctx.extra['runs_stopped_by_reduction_limit'] = loops
     if not had_counterexample(ctx):
